@@ -60,9 +60,13 @@ def judge_against_reference(v, scen, impl, model, name, d1_text):
                 continue
             d1 = (x["hdr"].split()[2] == z["hdr"].split()[2] and P == PM and
                   ((ref_ok and y["vres"] == "ok" and y["V"] == y["R"]) or (not ref_ok and y["vres"].startswith("err"))))
-            if d1 and has_finding(v.pid, "D1-override-leaves-old"):
+            if d1:
+                # the scenario re-sets a pending timer: the implementation follows the defective model variant exactly.
+                # For the properties that list D1 this is the known finding; for the others the reference comparison
+                # says nothing about the property on such a scenario and is skipped.
                 nknown += 1
-                v.known_finding(d1_text)
+                if has_finding(v.pid, "D1-override-leaves-old"):
+                    v.known_finding(d1_text)
                 continue
             missing = sorted(y["R"] - P)[:2] if ref_ok else []
             extra = sorted(P - y["R"])[:2] if ref_ok else []
@@ -109,9 +113,10 @@ def judge_cross(v, scen, impl, model, name, what, d1_text):
         impl_eq_model = all(x["E"] == z["E"] for x, z in zip(ri, rm))
         vsets = [y["V"] for y in rs if y["vres"] == "ok"]
         ref_consistent = len(vsets) == len(rs) and all(s == vsets[0] for s in vsets)
-        if impl_eq_model and ref_consistent and has_finding(v.pid, "D1-override-leaves-old"):
+        if impl_eq_model and ref_consistent:
             nknown += 1
-            v.known_finding(d1_text)
+            if has_finding(v.pid, "D1-override-leaves-old"):
+                v.known_finding(d1_text)
             continue
         v.violation(f"{name}-cross-{nm}.txt".replace(":", "_"),
                     f"# property {v.pid}: {bad}\n# replay: /verif/check {v.pid} --replay <this file>\n"
@@ -130,11 +135,11 @@ def mc_property(v, tier, seed, name, prof, fields=mc_suite.ALL_FIELDS, noids=Fal
         if cross:
             n = 120 if tier == "quick" else 2000
             for i in range(n):
-                base = mc_suite.gen_scenario(rng, mc_suite.profile(**dict(prof, two_runs=0, staged=0, depth=(2, 4))))
+                base = mc_suite.gen_scenario(rng, mc_suite.profile(**dict(prof, two_runs=0, staged=0, terminating=True)))
                 out.append((f"x{i}", ["refenum"] + with_all_combos(base, cross)))
         return out
     scen, impl, model, bad = mc_suite.run(
-        v, tier, seed, prof=mc_suite.profile(**prof), n_quick=n_quick, n_thorough=n_thorough, fields=fields, noids=noids,
+        v, tier, seed, prof=mc_suite.profile(**dict(prof, terminating=True) if refenum else prof), n_quick=n_quick, n_thorough=n_thorough, fields=fields, noids=noids,
         name=name, corpus=corpus, extra=extra, cfg_lines=(["refenum"] if refenum else []),
         nontrivial=nontrivial or (lambda st: st["multi_states"]))
     n = len(bad)
@@ -145,7 +150,10 @@ def mc_property(v, tier, seed, name, prof, fields=mc_suite.ALL_FIELDS, noids=Fal
         ls = lines if "refenum" in lines else ["refenum"] + lines
         i, m = run_pair("mc", [mc_suite.block("j", ls)], jobs=1)
         ri, rs = mc_suite.split_runs(i.get("j", [])), mc_suite.ref_sets(m.get("j", []))
+        rmod = mc_suite.split_runs(m.get("j", []))
         for k, (x, y) in enumerate(zip(ri, rs)):
+            if k < len(rmod) and x["E"] == rmod[k]["E"] and y["vres"] == "ok" and y["V"] == y["R"]:
+                continue  # implementation = defective model variant, reference variant = RefSpec: finding D1, not new
             if y["rres"] == "ok" and "result=ok" in x["hdr"]:
                 P = set(mc_suite.proj_ref(l) for l in x["E"])
                 if P != y["R"]:
